@@ -231,7 +231,7 @@ macro_rules! impl_policy {
         impl<S: BuildHasher + Clone + 'static> $policy<S> {
             /// (key costs sorted, used, max_cost, tinylfu w)
             pub(crate) fn verif_costs(&self) -> (Vec<(u64, i64)>, i64, i64, usize) {
-                let inner = self.inner.lock();
+                let inner = self.verif_lock();
                 let mut v: Vec<(u64, i64)> =
                     inner.costs.key_costs.iter().map(|(k, c)| (*k, *c)).collect();
                 v.sort();
@@ -239,12 +239,19 @@ macro_rules! impl_policy {
             }
 
             pub(crate) fn verif_estimate(&self, k: u64) -> i64 {
-                self.inner.lock().admit.estimate(k)
+                self.verif_lock().admit.estimate(k)
             }
 
             pub(crate) fn verif_bump(&self, k: u64, n: usize) {
-                let mut inner = self.inner.lock();
+                let mut inner = self.verif_lock();
                 (0..n).for_each(|_| inner.admit.increment(k));
+            }
+
+            /// the observer must not hang on a policy mutex that the code under test never releases
+            fn verif_lock(&self) -> parking_lot::MutexGuard<'_, PolicyInner<S>> {
+                self.inner
+                    .try_lock_for(std::time::Duration::from_secs(10))
+                    .expect("verif: the policy mutex was not released within 10 s")
             }
         }
 
